@@ -25,7 +25,8 @@ func readHeader(data []byte) (crcFlag bool, frameSize uint32, dataSize uint16, e
 	}
 	crcFlag = (c & RSCP_CTRL_BIT_MASK_CRC) == (uint16(RSCP_CRC_ENABLED) << RSCP_FLAG_BIT_CRC)
 	dataSize = binary.LittleEndian.Uint16(data[RSCP_FRAME_LENGTH_POS:])
-	frameSize = uint32(dataSize + RSCP_FRAME_HEADER_SIZE + (((c & RSCP_CTRL_BIT_MASK_CRC) >> RSCP_FLAG_BIT_CRC) * RSCP_FRAME_CRC_SIZE))
+	frameSize = uint32(dataSize) + uint32(RSCP_FRAME_HEADER_SIZE) +
+		uint32((c&RSCP_CTRL_BIT_MASK_CRC)>>RSCP_FLAG_BIT_CRC)*uint32(RSCP_FRAME_CRC_SIZE)
 	return crcFlag, frameSize, dataSize, nil
 }
 
